@@ -175,7 +175,7 @@ func must(err error) {
 
 // ---------- build ----------
 
-var simPkgs = []string{"internal/transfer:fs", "internal/peers", "internal/session", "internal/scheduler", "internal/app", "internal/wsclient", "internal/ice:postcall", "cmd/thruserv"}
+var simPkgs = []string{"internal/transfer:fs", "internal/peers", "internal/session", "internal/scheduler", "internal/app:net", "internal/wsclient", "internal/ice:postcall:net", "internal/transport:net", "internal/progress", "cmd/thruserv"}
 
 func lockBuild() func() {
 	must(os.MkdirAll(buildDir, 0o755))
@@ -609,6 +609,10 @@ func cmdCheck(id, tier string) int {
 	if v, err := strconv.Atoi(os.Getenv("VERIF_RUNS")); err == nil && v > 0 {
 		runs = v // development override
 	}
+	onlyPart := os.Getenv("VERIF_ONLY_PART") // development: one part, the main harness cut to a token number of runs
+	if onlyPart != "" && runs > 32 {
+		runs = 32
+	}
 	workers := runtime.NumCPU()
 	if workers > 16 {
 		workers = 16
@@ -625,6 +629,9 @@ func cmdCheck(id, tier string) int {
 	partBin := map[string]string{"": bin}
 	var partInfo []map[string]any
 	for _, part := range p.Parts {
+		if onlyPart != "" && part.ID != onlyPart {
+			continue
+		}
 		pb := build(part.Pkg)
 		pruns, pwall := part.Quick, part.QuickWall
 		if tier == "thorough" {
